@@ -283,6 +283,9 @@ func checkTree(res *core.Result, in treeInput, idx int, verbose bool) {
 		if badInst != nil {
 			if live[badInst] {
 				res.Stat("schema_violation_on_enabled_not_rejected(C14_owns)", 1)
+				if verbose {
+					fmt.Printf("  NOTE: schema violation in the section of the enabled %s was not rejected\n", badInst.path())
+				}
 			} else {
 				res.Stat("schema_violations_in_disabled_dependency_ignored", 1)
 			}
